@@ -161,7 +161,9 @@ func (s *sim) runMethod(method string, during []Step) error {
 			continue
 		}
 		cmds[i].Method = m
-		s.w.Emit(s.absCommand("method", method, &cmds[i]))
+		ev := s.absCommand("method", method, &cmds[i])
+		s.c06Extend(ev, &cmds[i])
+		s.w.Emit(ev)
 	}
 	s.dumpRec()
 	s.w.Emit(trace.M{"e": "End", "controller": "disruption.method", "object": method, "err": short(errS), "panic": panicked})
@@ -191,6 +193,7 @@ func (s *sim) runRound(during []Step) error {
 			mn = methodName(c.Method)
 		}
 		ev := s.absCommand("round", mn, c)
+		s.c06Extend(ev, c)
 		ev["e"] = "QCmd"
 		s.w.Emit(ev)
 	}
@@ -380,6 +383,8 @@ func (s *sim) step(st Step) error {
 			}
 		})
 		s.deliver("NodeClaim", claimName(n), "")
+	case "SetOffering":
+		s.setOffering(st.Type, st.Zone, st.CT, st.Price, st.Available)
 	case "Snapshot":
 		s.snapshot("step")
 	case "Simulate": // C18 (x_frame.go)
